@@ -562,6 +562,10 @@ def run(ctx: lib.Ctx) -> None:
         ok, b = run_forge(t)
         if not ok:
             ctx.case(('forge-raises', repr(t)), nontrivial=False, kind=kind + ':forge-raises')
+            okc, ctc = lib.call(lib.canon_micheline, t)
+            if okc and py_wf(ctc, proto) and not isinstance(b, RecursionError):
+                violate('forge_micheline raises on a well-formed expression', {'tree': ctc if tree_size(ctc) < 400 else None, 'error': repr(b)[:300],
+                        'repro': 'forge_micheline(tree)'})
             continue
         try:
             ct = lib.canon_micheline(t)
@@ -569,7 +573,7 @@ def run(ctx: lib.Ctx) -> None:
         except Exception:  # noqa: BLE001  (e.g. lone surrogates)
             continue
         ok2, back = run_unforge(b)
-        rt = bool(ok2) and lib.canon_micheline(back) == ct
+        rt = bool(ok2) and lib.call(lib.canon_micheline, back) == (True, ct)
         wf = py_wf(ct, proto)
         size = tree_size(ct)
         ctx.case(json.dumps(ct, sort_keys=True), nontrivial=size >= 3, kind=f'{kind}:{"wf" if wf else "illformed"}',
